@@ -817,14 +817,6 @@ theorem triples_choices : Statement_triples_choices := by
       have e2 := ((slot_matches sl a b y t).1 (((hO.triples _ ctx).2 t).1 hy).2).2
       exact hxy (e1.symm.trans e2)
 
-/-- the nested indexes after the store-level history `exStOps`: only LEAF keys were deleted — the emptied inner
-    dictionaries `spo[4][2]`, `spo[5][2]`, `osp[3][4]`, `osp[3][5]` are still there — and the walks ignore them -/
-example : (NMem.init.stRun exStOps).ispo = [(1, [(2, [3])]), (4, [(2, [])]), (5, [(2, [])])] ∧
-    (NMem.init.stRun exStOps).ipos = [(2, [(3, [1])])] ∧
-    (NMem.init.stRun exStOps).iosp = [(3, [(1, [2]), (4, []), (5, [])])] ∧
-    (NMem.init.stRun exStOps).drain (none, none, some 3) none = [(1, 2, 3)] ∧
-    (NMem.init.stRun exStOps).triplesChoices .s [5, 1, 1] (some 2) none (some 1) = [(1, 2, 3), (1, 2, 3)] := by decide
-
 /-- a schedule on which the concrete generator really walks two levels between mutations: `(1,?,?)` on graph 0;
     `(1,2,4)` is removed before the inner copy `[3,4]` reaches it, `(1,5,6)` is added under a NEW second-level key after
     the outer copy `[2]` was taken (not seen), `(1,2,7)` under the already expanded key (not seen either) -/
@@ -852,6 +844,14 @@ example : (Mem.init.stRun exStOps).contexts (none, none, none) = [1, 2, 7] ∧
     (Mem.init.stRun exStOps).triplesC (none, some 2, none) none = [((1, 2, 3), [1])] ∧
     (Mem.init.stRun exStOps).contexts (some 1, some 2, some 3) = [1] ∧
     (Mem.init.stRun exStOps).len none = 1 ∧ (Mem.init.stRun exStOps).err = false := by decide
+
+/-- the nested indexes after the store-level history `exStOps`: only LEAF keys were deleted — the emptied inner
+    dictionaries `spo[4][2]`, `spo[5][2]`, `osp[3][4]`, `osp[3][5]` are still there — and the walks ignore them -/
+example : (NMem.init.stRun exStOps).ispo = [(1, [(2, [3])]), (4, [(2, [])]), (5, [(2, [])])] ∧
+    (NMem.init.stRun exStOps).ipos = [(2, [(3, [1])])] ∧
+    (NMem.init.stRun exStOps).iosp = [(3, [(1, [2]), (4, []), (5, [])])] ∧
+    (NMem.init.stRun exStOps).drain (none, none, some 3) none = [(1, 2, 3)] ∧
+    (NMem.init.stRun exStOps).triplesChoices .s [5, 1, 1] (some 2) none (some 1) = [(1, 2, 3), (1, 2, 3)] := by decide
 
 /-- operands on different kinds of store: a graph of a `Memory` after a store-level history and a `SimpleMemory` graph -/
 example : ((Operand.mem exStOps 1).view.xor (Operand.simple [.add (1, 2, 3), .add (9, 9, 9), .remove (none, some 9, none),
